@@ -130,10 +130,10 @@ fn szx_chunk_bytes(r: &mut Rng, c: &Value, m128: bool) -> Vec<u8> {
         }
         "SPCR" => (*b"SPCR", vec![[1u8, 8, 255, 7][var as usize], [0u8, 0x27, 0xFF, 0x10][var as usize], 0, [1u8, 0xFF, 0, 0x1F][var as usize], 0, 0, 0, 0]),
         "RAMP" => {
-            let page = [5u8, 8, 255, 2][var as usize];
+            let page = [5u8, 8, 255, 2, 3, 7][var as usize];
             let mut v = vec![];
             match var {
-                0 | 1 | 2 => { v.extend(0u16.to_le_bytes()); v.push(page); v.extend(vec![0xAAu8; 16384]); }
+                0 | 1 | 2 | 4 | 5 => { v.extend(0u16.to_le_bytes()); v.push(page); v.extend(vec![0xAAu8; 16384]); }
                 _ => {
                     // compressed page whose stream inflates to fewer than 16384 bytes
                     v.extend(1u16.to_le_bytes()); v.push(page);
@@ -444,6 +444,48 @@ pub fn run(args: &Args) {
                 cases.push((format!("chunk1:{kind}"), kind.to_string(), bytes.clone(), *m128, Fault::None, 1));
             }
         }
+        // (d) field sweep: every structural byte of well-formed files (headers, chunk sizes, the first bytes of every
+        // chunk's data, block lengths) set to each boundary value in turn
+        if args.num("fields", 1) != 0 {
+            const VALS: [u8; 12] = [0, 1, 2, 3, 7, 8, 9, 0x10, 0x7F, 0x80, 0xFE, 0xFF];
+            let mut sweep: Vec<(&str, Vec<u8>, bool, Vec<usize>)> = vec![];
+            let szx_offsets = |b: &[u8]| {
+                let mut offs: Vec<usize> = (4..8).collect();
+                let mut p = 8;
+                while p + 8 <= b.len() {
+                    let size = u32::from_le_bytes([b[p + 4], b[p + 5], b[p + 6], b[p + 7]]) as usize;
+                    offs.extend(p + 4..(p + 16).min(p + 8 + size).min(b.len()));
+                    p += 8 + size;
+                }
+                offs
+            };
+            for (d, m128) in [(&d48, false), (&d128, true)] {
+                for compressed in [true, false] {
+                    if m128 && !compressed {
+                        continue;
+                    }
+                    let b = szx(d, &SzxOpts { compressed, ay: Some((1, [3; 16])), mouse: Some(2), ..Default::default() });
+                    let o = szx_offsets(&b);
+                    sweep.push(("szx", b, m128, o));
+                }
+            }
+            sweep.push(("sna", sna48(&d48), false, (0..27).collect()));
+            sweep.push(("sna", sna128(&d128), true, (0..27).chain(49179..49183).collect()));
+            let tp = tap_bytes(&[good_block(0, &r.bytes(17)), good_block(0xFF, &r.bytes(30))]);
+            sweep.push(("tap", tp, false, vec![0, 1, 2, 3, 21, 22, 23]));
+            for (kind, bytes, m128, offs) in sweep {
+                for o in offs {
+                    for v in VALS {
+                        if bytes[o] == v {
+                            continue;
+                        }
+                        let mut b = bytes.clone();
+                        b[o] = v;
+                        cases.push((format!("field:{kind}:{}:{o}={v}", if m128 { 128 } else { 48 }), kind.to_string(), b, m128, Fault::None, 0));
+                    }
+                }
+            }
+        }
         // (c) mutated and random byte strings
         let n = args.num("random", 0);
         for i in 0..n {
@@ -484,6 +526,7 @@ pub fn run(args: &Args) {
         }
     }
     let dump = args.num("dump", u64::MAX) as usize;
+    let (part, parts) = (args.num("part", 0), args.num("parts", 1).max(1));
     let mut n = 0;
     for (idx, (what, kind, bytes, m128, fault, chunk)) in cases.iter().enumerate() {
         if idx == dump {
@@ -491,7 +534,7 @@ pub fn run(args: &Args) {
             eprintln!("dumped {what} {kind} {} bytes", bytes.len());
             return;
         }
-        if idx < from {
+        if idx < from || idx as u64 % parts != part {
             continue;
         }
         *current.lock().unwrap() = (idx, what.clone(), std::time::Instant::now());
